@@ -429,7 +429,8 @@ func runC05(c *Ctx, idx int, o *Obs) {
 			if cl0[1] == "outgroup" && inMode == "stdin" {
 				cl = cl0 // positional tip names after the options: keep the file form
 			}
-			res := runCLI(c, inStdin, cl...)
+			res, outMode := runCLIOut(c, r, inStdin, cl...)
+			o.Ev("cli_output:"+outMode, 1)
 			o.Ev("cli:"+cl0[0]+" "+cl0[1], 1)
 			what := "gotree " + cl0[0] + " " + cl0[1] + " (input: " + inMode + ") on a file of " + fmt.Sprint(len(texts)) + " trees"
 			if cl0[1] == "outgroup" {
@@ -529,7 +530,7 @@ func runC05(c *Ctx, idx int, o *Obs) {
 			if len(texts) >= 2 {
 				f := tmpFile(c, "c05og.nw", strings.Join(texts, "\n")+"\n")
 				inp := strings.Join(texts, "\n") + "\noutgroup: " + strings.Join(og, ",")
-				res := runCLI(c, "", append([]string{"reroot", "outgroup", "-i", f}, og...)...)
+				res, _ := runCLIOut(c, r, "", append([]string{"reroot", "outgroup", "-i", f}, og...)...)
 				o.Ev("cli:reroot outgroup multi", 1)
 				what := "gotree reroot outgroup on a file of " + fmt.Sprint(len(texts)) + " trees with different tip sets"
 				if o.Check(res.Exit == 0 && !res.Panic, "cli_failed", what+": "+res.brief(), inp) {
